@@ -78,6 +78,9 @@ def build_msg(desc: str) -> bytes:
             avps.append(gen.rfc_wire(278, 0, 0x40, u32(v)))
         elif k == "ex":
             avps.append(gen.rfc_wire(int(v), 0, 0x00, b"xx"))
+        elif k == "fav":
+            # Failed-AVP with the given octets (hex) as its content
+            avps.append(gen.rfc_wire(279, 0, 0x40, bytes.fromhex(v)))
         else:
             raise ValueError("unknown key " + k)
     body = b"".join(avps)
@@ -238,6 +241,29 @@ class Sim:
             n.retransmit_queue_size = int(kv["rq"])
         if kv.get("noval") == "1":
             n.validate_received_request_avps = False
+        # events that happen while an application thread is inside `route_answer`, between finding the pending request and
+        # removing its entry (the I/O thread acting in between): `midroute=ev+ev`, consumed by the first answer that gets
+        # that far.  The current source of the method is stepped line by line; the removal line is located structurally.
+        self.midroute = [x.replace("_", " ") for x in kv["midroute"].split("+")] if kv.get("midroute") else []
+        if self.midroute:
+            import linesched
+            import extract_threads
+            shape = extract_threads.route_answer_shape(type(n).route_answer)
+            step_fn = linesched.stepper(type(n).route_answer)
+            sim = self
+
+            def route_answer(message, _step=step_fn, _shape=shape):
+                g = _step(n, message)
+                try:
+                    while True:
+                        y = next(g)
+                        if sim.midroute and y[0] == "line" and _shape["removal"] is not None and y[1] == _shape["removal"]:
+                            evs, sim.midroute = sim.midroute, []
+                            for e in evs:
+                                sim.event(e, nested=True)
+                except StopIteration as done:
+                    return done.value
+            n.route_answer = route_answer
         self.peers = []
         for pc in self.peer_cfg:
             name, realm, persistent, always, wait, hasaddr, default = pc[:7]
